@@ -109,6 +109,38 @@ def step (st : State) : Op → State
 
 def run (h : List Op) : State := h.foldl step init
 
+def runFrom (st : State) (h : List Op) : State := h.foldl step st
+
+/-! ### cross-document labels: `Context.restore` and the loop of `Compile.parse` -/
+
+/-- one entry of a `.paux` file: label, the node re-created for it (`self[macroName]()`, not part
+    of the document) and its persisted number -/
+structure Entry where
+  lab : Label
+  node : NodeId
+  num : Num
+  deriving DecidableEq, Repr
+
+/-- body of the loop of `Context.restore`: `n.restore(value); self.labels[key] = n`
+    (`value` carries the persisted `id` — the label — and `ref`).  `persistentLabels` is not written. -/
+def restore (st : State) (e : Entry) : State :=
+  { st with labels := upd st.labels e.lab (some e.node),
+            ids := upd st.ids e.node (some e.lab),
+            nums := upd st.nums e.node (some e.num) }
+
+def restoreAll (st : State) (es : List Entry) : State := es.foldl restore st
+
+/-- a `*.paux` file found by `glob`: its base name (the job that wrote it) and its entries -/
+structure PauxFile where
+  job : Nat
+  entries : List Entry
+  deriving Repr
+
+/-- `Compile.parse`: `for fname in glob(*.paux): if basename(fname) == '<jobname>.paux': continue;
+    context.restore(fname)` and then `tex.parse()` -/
+def compileParse (job : Nat) (files : List PauxFile) (h : List Op) : State :=
+  runFrom ((files.filter (fun f => f.job ≠ job)).foldl (fun st f => restoreAll st f.entries) init) h
+
 /-- what a renderer prints for a reference: `obj.idref[name].ref` (`??`/nothing for a placeholder) -/
 def printed (st : State) (r : RefId) (s : Slot) : Option Num :=
   match st.idref r s with
